@@ -876,6 +876,9 @@ pub fn conc_handler(seed: u64, mode: u64) -> ConcCase {
         if rw.chance(1, 2) {
             stored.push(h64(i, (i + 1) % 3));
         }
+        if rw.chance(1, 2) {
+            stored.push(h64(i, 0));
+        }
     }
     let mut setup = vec![COp::Insert { kg: kg.clone(), rel: rel.clone(), tuples: stored }];
     if rw.chance(1, 3) {
@@ -904,7 +907,7 @@ pub fn conc_handler(seed: u64, mode: u64) -> ConcCase {
                     let tuples: Vec<T> = (0..k)
                         .map(|_| {
                             fresh += 1;
-                            h64(fresh, tid as i64)
+                            h64(fresh, 0)
                         })
                         .collect();
                     ops.push(COp::Insert { kg: kg.clone(), rel: rel.clone(), tuples });
@@ -919,8 +922,12 @@ pub fn conc_handler(seed: u64, mode: u64) -> ConcCase {
                 6..=7 if conditional_here => ops.push(COp::CondDelete { kg: kg.clone(), rel: rel.clone(), col: 0, cmp: rw.pick(cmps).to_string(), k: rw.range(2, 3) as i64 }),
                 8..=9 if conditional_here => {
                     // Y := Y + 10, or Y := a constant that other stored tuples already carry (the insert half may be all duplicates)
-                    let set_to = if rw.chance(1, 2) { Some(rw.range(0, 2) as i64) } else { None };
-                    ops.push(COp::Update { kg: kg.clone(), rel: rel.clone(), col: 0, cmp: rw.pick(cmps).to_string(), k: rw.range(2, 3) as i64, add: 10, set_to });
+                    if rw.chance(1, 2) {
+                        // condition on Y, Y := 0: the inserted tuples (X, 0) are not matched themselves and may all be stored already
+                        ops.push(COp::Update { kg: kg.clone(), rel: rel.clone(), col: 1, cmp: rw.pick(&[">", ">="]).to_string(), k: rw.range(1, 2) as i64, add: 0, set_to: Some(0) });
+                    } else {
+                        ops.push(COp::Update { kg: kg.clone(), rel: rel.clone(), col: 0, cmp: rw.pick(cmps).to_string(), k: rw.range(2, 3) as i64, add: 10, set_to: None });
+                    }
                     if rw.chance(1, 2) {
                         // read-your-writes right after the statement
                         ops.push(COp::Query { kg: kg.clone(), rel: rel.clone(), arity: 2 });
@@ -1008,6 +1015,7 @@ pub fn c32_case(seed: u64) -> HCase {
                 if rw.chance(1, 3) {
                     // Y := constant: the inserted tuples may all be stored already; then read the relation back
                     let c = rw.range(0, 2) as i64;
+                    let (col, cmp, k, var) = if rw.chance(1, 2) { (1usize, ">".to_string(), c, "Y") } else { (col, cmp, k, var) };
                     ops.push(HOp::Program {
                         kg: kg.clone(),
                         text: format!("-{rel}(X, Y), +{rel}(X, {c}) <- {rel}(X, Y), {var} {cmp} {k}"),
@@ -1512,6 +1520,7 @@ pub fn c19a_case(seed: u64) -> HCase {
                 if rw.chance(1, 3) {
                     // Y := constant: the inserted tuples may all be stored already; then read the relation back
                     let c = rw.range(0, 2) as i64;
+                    let (col, cmp, k, var) = if rw.chance(1, 2) { (1usize, ">".to_string(), c, "Y") } else { (col, cmp, k, var) };
                     ops.push(HOp::Program {
                         kg: kg.clone(),
                         text: format!("-{rel}(X, Y), +{rel}(X, {c}) <- {rel}(X, Y), {var} {cmp} {k}"),
